@@ -124,6 +124,9 @@ def run_case(case):
                    '%s raised but %s returned (%s)' % who)
             continue
         a, b = dwtu.to_np(a), dwtu.to_np(b)
+        if a.size != b.size or a.size == 0 or b.size == 0:
+            r.fail('shape:%s:%s' % (mode, case['direction']), 'separable %s vs non-separable %s' % (a.shape, b.shape))
+            continue
         if ana:
             a = a.reshape(a.shape[0], -1, 4, a.shape[-2], a.shape[-1])
             b = b.reshape(b.shape[0], -1, 4, b.shape[-2], b.shape[-1])
